@@ -720,7 +720,7 @@ fn main() {
         );
         let m_hdrs: Vec<vcf::Header> =
             FILE_FORMATS.iter().map(|&ff| gen_::rich_header(ff, 2, IdxMode::Implicit).build().unwrap()).collect();
-        let sets: Vec<Vec<(String, Rec)>> = FILE_FORMATS.iter().map(|&ff| gvcf::multi::record_set(ff)).collect();
+        let sets: Vec<Vec<(String, Rec)>> = FILE_FORMATS.iter().map(|&ff| gvcf::multi::record_set_for(ff, true)).collect();
         let seqs = gvcf::multi::sequences(sets[0].len());
         let n_seq = seqs.len() as u64;
         let files = Mutex::new(std::collections::HashSet::new());
